@@ -207,6 +207,9 @@ enum Amt {
 	Exact,
 	/// 25 grin from all outputs, two change outputs
 	Split2,
+	/// 20 grin with the fee taken out of the amount (amount_includes_fee): the recipient gets, and signs for,
+	/// the amount less the fee
+	SmallInclFee,
 }
 
 #[derive(Clone, Copy, Debug, PartialEq, Serialize, Deserialize)]
@@ -242,7 +245,7 @@ fn shapes(thorough: bool) -> Vec<Shape> {
 		let mut v = vec![];
 		for late in [false, true].iter() {
 			for acct in [Acct::Default, Acct::Acct1Active, Acct::Acct1Src, Acct::Acct1SrcDefaultActive].iter() {
-				for amt in [Amt::Small, Amt::Exact, Amt::Split2].iter() {
+				for amt in [Amt::Small, Amt::Exact, Amt::Split2, Amt::SmallInclFee].iter() {
 					v.push(Shape { amt: *amt, acct: *acct, late: *late, lock_with_reply: false, reflect_first: false });
 					if !*late && *acct != Acct::Acct1SrcDefaultActive {
 						v.push(Shape { amt: *amt, acct: *acct, late: false, lock_with_reply: true, reflect_first: false });
@@ -267,6 +270,8 @@ fn shapes(thorough: bool) -> Vec<Shape> {
 			Shape { amt: Amt::Small, acct: Acct::Acct1SrcDefaultActive, late: false, lock_with_reply: false, reflect_first: false },
 			Shape { amt: Amt::Exact, acct: Acct::Acct1Active, late: false, lock_with_reply: false, reflect_first: false },
 			Shape { amt: Amt::Small, acct: Acct::Default, late: false, lock_with_reply: true, reflect_first: false },
+			Shape { amt: Amt::SmallInclFee, acct: Acct::Default, late: false, lock_with_reply: false, reflect_first: false },
+			Shape { amt: Amt::SmallInclFee, acct: Acct::Default, late: true, lock_with_reply: false, reflect_first: false },
 			Shape { amt: Amt::Small, acct: Acct::Default, late: false, lock_with_reply: false, reflect_first: true },
 			Shape { amt: Amt::Small, acct: Acct::Default, late: false, lock_with_reply: true, reflect_first: true },
 			Shape { amt: Amt::Small, acct: Acct::Default, late: true, lock_with_reply: false, reflect_first: false },
@@ -360,7 +365,7 @@ fn prepare(dir: &str, base: &Snapshot, s: &Shape) -> Result<Snapshot, String> {
 			a.set_account("acct1").unwrap();
 		}
 		let amount = match s.amt {
-			Amt::Small => 20 * G,
+			Amt::Small | Amt::SmallInclFee => 20 * G,
 			Amt::Exact => 60 * G - tx_fee(1, 1, 1),
 			Amt::Split2 => 25 * G,
 		};
@@ -373,6 +378,9 @@ fn prepare(dir: &str, base: &Snapshot, s: &Shape) -> Result<Snapshot, String> {
 			args.src_acct_name = Some("acct1".to_owned());
 		}
 		args.payment_proof_recipient_address = Some(SlatepackAddress::new(&addr_pk("B", 0)));
+		if s.amt == Amt::SmallInclFee {
+			args.amount_includes_fee = Some(true);
+		}
 		if s.late {
 			args.late_lock = Some(true);
 		}
@@ -385,6 +393,8 @@ fn prepare(dir: &str, base: &Snapshot, s: &Shape) -> Result<Snapshot, String> {
 			let _ = take_last_panic();
 		}
 		let s2 = b.receive(&s1, None).map_err(e)?;
+		// the amount the transaction pays (with amount_includes_fee: what was asked for less the fee)
+		let amount = if s.amt == Amt::SmallInclFee { s1.amount } else { amount };
 		Ok(Prep { s1: slate_to_json(&s1), s2: slate_to_json(&s2), amount })
 	})();
 	match r {
